@@ -107,3 +107,6 @@ macro_rules! zoo_all {
         $crate::zoo_nested64!($m $(, $a)*);
     };
 }
+pub type D3D2_64 = Dual3<Dual2_64, f64>;
+pub type D3D3_64 = Dual3<Dual3_64, f64>;
+pub type HDHD64 = HyperDual<HyperDual64, f64>;
